@@ -73,8 +73,7 @@ def _chunk(items):
                 c['cache'] = caches.setdefault(cname, {})
             rec = {'cfg': cname, 'pos': -1}
             try:
-                with common.Alarm(10):
-                    r = emmet.expand(src, c)
+                r = common.guarded(lambda: emmet.expand(src, copy.deepcopy(c) if 'cache' not in c else c), 10)
                 rec['kind'] = 'str' if isinstance(r, str) else 'not-a-string'
             except ScannerException as ex:
                 rec['kind'] = 'scanner-error'
